@@ -676,7 +676,8 @@ class Translator:
               "    fn canon_msg(&self, r: bool) -> String { self.canon(r) }\n"
               "    fn write_framed(self: Box<Self>) -> Result<Vec<u8>, String> { write_framed_as(*self) }\n"
               "    fn read_typed(&self, stream: &[u8]) -> Result<(String, usize), String> { read_typed_as::<%s>(stream) }\n"
-              "}" % (n, n, n, n))
+              "    fn typed_from_vec(&self, bytes: Vec<u8>) -> Result<String, String> { typed_from_vec_as::<%s>(bytes) }\n"
+              "}" % (n, n, n, n, n))
         w("pub const TYPES: &[TypeInfo] = &[")
         for n in self.msgs:
             w('    TypeInfo { name: "%s", id: %d, has_blob: %s, has_streamed: %s, has_tlv: %s, dispatched: %s, gen: |g| Box::new(<%s as Arb>::arb(g)) },' % (
